@@ -73,8 +73,15 @@ class C13(Check):
             fu = fixlib.first_unparsable(rv.tree)
             if fu:
                 at, first = fu
+        # is it a glued / split token (the C12 view of the same output)?
+        glue = "none"
+        rl = run.relexed()
+        if not isinstance(rl, Crash) and run.tree.raw == run.fixed:
+            d = fixlib.seq_diff(run.tree_tokens(), rl[0])
+            if d is not None:
+                glue = d[0] + ":" + "+".join(t[2] for t in d[1][:2])
         out.fail(f"{kind}: {errs[0].desc()[:120]} after fixing; fixed={run.fixed[:160]!r}", clause="new-" + kind, rule=rule,
-                 at=at, first=first)
+                 glue=glue, at=at, first=first)
         return out
 
 
